@@ -243,6 +243,26 @@ def api_cases(_=None):
     bad('copy_with changed the history of the original', 'copy_with')
   for p in check_hist_state(cp, 'copy_with'):
     bad(p, 'copy_with')
+  # edits made through copy_with / deepcopy_with / constructor arguments are the caller's edits
+  for name, mk in (('copy_with', lambda c0: fdl.copy_with(c0, c='NEW', k='K2')),
+                   ('deepcopy_with', lambda c0: fdl.deepcopy_with(c0, c='NEW', k='K2')),
+                   ('constructor', lambda c0: fdl.Config(pool.fa, 1, 2, c='NEW', k='K2')),
+                   ('Partial constructor', lambda c0: fdl.Partial(pool.fa, 1, 2, c='NEW', k='K2'))):
+    n += 1
+    c0 = fresh()
+    try:
+      cp = mk(c0)
+    except Exception as e:   # pylint: disable=broad-except
+      bad(f'{name} raised {type(e).__name__}: {e}', name)
+      continue
+    for key in ('c', 'k'):
+      es = cp.__argument_history__.get(key, [])
+      if not es or es[-1].new_value != ('NEW' if key == 'c' else 'K2'):
+        bad(f'{name}: the history of {key!r} does not end with the value passed in', name)
+      elif not es[-1].location.filename.endswith(here):
+        bad(f'{name}: edit attributed to {os.path.basename(es[-1].location.filename)}:'
+            f'{es[-1].location.line_number} instead of the caller ({here})', name,
+            'location:' + os.path.basename(es[-1].location.filename))
   # exception inside a suspend block restores the flag
   n += 1
   try:
